@@ -11,6 +11,7 @@ import GrVerif.Proofs.GlyphGfx
 import GrVerif.Proofs.FaceLoadAll
 import GrVerif.Proofs.NameLoad
 import GrVerif.Proofs.CmapDirect
+import GrVerif.Proofs.CmapCache
 import GrVerif.Props.C13
 import GrVerif.Props.C14
 /-!
@@ -229,6 +230,13 @@ point reads nothing outside the table -/
 theorem direct_cmap_total (t : Buf) (h4 : 4 ≤ t.size) :
     ∃ bmp smp, Cmap.bmpSubtable t = .ok bmp ∧ Cmap.smpSubtable t = .ok smp ∧ (bmp.isSome → ∀ usv, ∃ g, Cmap.directGet t bmp smp usv = .ok g) :=
   Cmap.direct_cmap_in_bounds t h4
+
+/-- **the cached cmap as a whole** (`CachedCmap::CachedCmap`, what a face built with `gr_face_cacheCmap` runs): for every cmap table
+`Face::Table` hands out, choosing and checking the subtables, walking each with `NextCodepoint` (format 4 and format 12, whatever range
+key the walk carries from one call to the next) and looking up every code point it reports – the whole construction of the cache –
+reads nothing outside the table -/
+theorem cached_cmap_total (t : Buf) (h4 : 4 ≤ t.size) : ∃ m, Cmap.buildCached t = .ok m :=
+  Cmap.buildCached_total t h4
 
 /-- **the name table**: `NameTable`'s constructor (with `setPlatformEncoding`) for every byte string, platform and encoding, and `getName` on
 what it accepted for every language and name id: the header, the name records and the string the chosen record names are read inside the
